@@ -231,8 +231,11 @@ func (c *Codec) update(keys channel.Keys, keyDataTypes map[channel.Key]telem.Dat
 		}
 	}
 	slices.Sort(s.keys)
-	c.mu.updateAvailable.Store(true)
+	// The flag is raised only once the state is in the channel: an Encode/Decode that
+	// clears the flag in between would otherwise find the channel empty and leave this
+	// state unprocessed until the next update.
 	c.mu.updates <- s
+	c.mu.updateAvailable.Store(true)
 }
 
 func (c *Codec) processUpdates() {
